@@ -108,6 +108,12 @@ def run(eng, tier):
                 recs = written_record(p, side)
                 if oo is not None and len(recs) == 1:
                     want = S('false') if recs[0][0] == 'remove' else S('true')
+                    # the flag written from a boolean (b.to_string() / format!("{}", b)): its value on this path is what the path established for b
+                    if oo[0] == 'tostr' and isinstance(oo[1], tuple):
+                        if oo[1] in (('bool', True), ('int', 1)): oo = S('true')
+                        elif oo[1] in (('bool', False), ('int', 0)): oo = S('false')
+                        elif p.holds(oo[1], True) is not None: oo = S('true')
+                        elif p.holds(oo[1], False) is not None: oo = S('false')
                     eng.ob(oo == want, PROP, 'order_open', '%s:%s' % (v, recs[0][0]), '%s: order_open is %s on a path that %ss the order' % (v, K(oo), recs[0][0]), where=recs[0][3]['site'], detail=p.describe(12),
                            sample={'rule': 'order_open', 'request': v, 'write': recs[0][0], 'value': K(oo)})
             elif v == 'CancelAsk':
